@@ -908,6 +908,7 @@ def check_family(S, fam, seed, batches, do):
                     S.fail(_key("compile", fam.cls, _tag(e)), dict(base, op="compile", error=_tail(e)))
             else:
                 src = twin() if tw_ok else None
+                compile_raised = False
                 for op in ("compile", "compile-copy", fam.mode):
                     if op is None:
                         continue
@@ -923,6 +924,7 @@ def check_family(S, fam, seed, batches, do):
                             mc = ejit.trace(twin() if tw_ok else copy.deepcopy(m), example_inputs=xs[batches[1]])
                     except Exception as e:
                         tag = _tag(e)
+                        compile_raised = True
                         ctx.case({"op": op, "class": fam.cls, "cfg": fam.cfg, "error": tag})
                         S.fail(_key(op, fam.cls, tag), dict(base, op=op, error=_tail(e),
                                                             how=f"e3nn.util.jit.{op.split('-')[0]}(module)"
@@ -935,6 +937,46 @@ def check_family(S, fam, seed, batches, do):
                         if not ok or isinstance(m, torch.jit.ScriptModule):
                             S.fail(f"compile-copy/{fam.cls}/original-changed", dict(base, detail=why))
                 del src
+                # ---- the same module in the OTHER floating dtype than the process default (m.to(float64) under float32 default and
+                #      vice versa): compile must still succeed and reproduce it (tracing inputs have to follow the MODULE's dtype)
+                other = torch.float64 if torch.get_default_dtype() == torch.float32 else torch.float32
+                if compile_raised:
+                    return   # compiling this configuration fails already in the default dtype (reported above): not a dtype matter
+                try:
+                    md = copy.deepcopy(m).to(other)
+                    xd = {b: tuple(t.to(other) if torch.is_tensor(t) and t.is_floating_point() else t for t in xs[b]) for b in batches}
+                    refd = {b: _run(md, xd[b]) for b in batches}
+                except Exception:
+                    ctx.count("skip:other-dtype:" + fam.cls)   # conversion itself is the dtype clause (part 2 dtype histories)
+                    return
+                ctx.count("jit:compile-other-dtype")
+                ctx.case({"op": "compile-other-dtype", "class": fam.cls, "cfg": fam.cfg, "dtype": str(other)}, sample_every=29)
+                try:
+                    mcd = ejit.compile(md, in_place=False)
+                except Exception as e:
+                    S.fail(f"compile-other-dtype/{fam.cls}/{_tag(e)}",
+                           dict(base, op="compile-other-dtype", dtype=str(other), error=_tail(e),
+                                how=f"m = build(); md = copy.deepcopy(m).to({other}); e3nn.util.jit.compile(md, in_place=False)  under default dtype {torch.get_default_dtype()}"))
+                    return
+                for b in batches:
+                    try:
+                        y = _run(mcd, xd[b])
+                        ok, why = _close(refd[b], y)
+                        err = None
+                    except Exception as e:
+                        ok, why, err = False, "call failed", e
+                    if not ok:
+                        tag = "mismatch" if err is None else "call-" + _tag(err)
+                        root = "compile-other-dtype"
+                        if err is not None or why.startswith("shape"):
+                            try:
+                                x0 = tuple(t[0] for t in xd[b])
+                                if _close(_run(md, x0), _run(mcd, x0))[0]:
+                                    root, tag = "compile", "batched-input"     # the recorded tracing-input defect, not a dtype matter
+                            except Exception:
+                                pass
+                        S.fail(f"{root}/{fam.cls}/{tag}", dict(base, op="compile-other-dtype", dtype=str(other), batch=b, detail=why,
+                                                              error=_tail(err) if err is not None else None))
 
     # ---------------- pickle / save / deepcopy / state_dict ----------------
     def do_copy():
